@@ -57,7 +57,8 @@ def reach(v, name, alpha, gamma, depth, export, maxstack=4, maxsize=9, carrier=2
     return trans, alphabet
 
 
-def validate(v, name, cases, semsize=9, semmvs=2, carrier=2, bs=200, clauses=('unsound',)):
+def validate(v, name, cases, semsize=9, semmvs=2, carrier=None, bs=200, clauses=('unsound',)):
+    carrier = carrier or (2 if v.tier == 'quick' else 3)
     """Trace_Machine over recorded cases; returns list of (clause, case)."""
     wd = workdir(name)
     path = os.path.join(wd, 'cases.ndjson')
@@ -115,7 +116,7 @@ def impl_bfs(alphabet, depth, gamma_terms, maxstack=4, maxsize=9, maxstates=4000
 def indstep(v, quick, tag='c01', clauses=('unsound',), semsize=24):
     """(A1) inductive step on the specification + the same rule instances executed by Rust."""
     import funcs
-    res, n = funcs.run_blocks(v, tag.upper(), 'MC_IndStep', tag + '-indstep', None, ' Quick = ' + ('TRUE' if quick else 'FALSE'), bs=4, needs_sem=True)
+    res, n = funcs.run_blocks(v, tag.upper(), 'MC_IndStep', tag + '-indstep', None, ' Quick = ' + ('TRUE' if quick else 'FALSE'), bs=4, needs_sem=True, carrier=(2 if quick else 3))
     if res.fails:
         raise MachineryError(f'the SPECIFICATION machine is unsound in the inductive step: {res.fails[:3]}')
     valid, alpha, plugs, plugs2 = [], None, None, None
@@ -167,7 +168,7 @@ def report(v, fails, source):
 
 def run(v, tier):
     quick = tier == 'quick'
-    v.assumptions += ['carriers 1..2 (3 without application in thorough tier); instance universe InstUSmall',
+    v.assumptions += ['carriers 1..2 (quick); 1..3 for application-free patterns in the thorough tier; instance universe InstUSmall',
                       'rustc stable in place of the pinned nightly',
                       'axioms of the gamma phase are assumed valid (theory-relative validity)']
     # (A)+(B): spec-side frontier
